@@ -295,12 +295,16 @@ pub fn run(opts: &Opts) -> Report {
     rep.assumptions = vec![
         "update_connid_counts is only issued right after a tokenize of the current sentence (as the reorder tool does)".into(),
         "the harness does not own the thread schedule: the concurrent part is a stress test against sequential expectations; \
-         Send+Sync of Tokenizer/Dictionary is decided at compile time by the probe crate harness/probes/sendsync"
+         Send+Sync of Tokenizer/Dictionary is decided at compile time by the probe crate harness/probes/sendsync; \
+         the concurrent runs are repeated under ThreadSanitizer so that a data race is reported on any explored schedule even if the tokens are right"
             .into(),
     ];
+    let only_concurrent = std::env::var("VERIF_ONLY").as_deref() == Ok("concurrent");
     let a = Histories { threads: 1 };
-    crate::props::committed_replays(&a, opts, &mut rep);
-    run_sub(&a, opts, opts.tier.pick(8000, 200_000), &mut rep);
+    if !only_concurrent {
+        crate::props::committed_replays(&a, opts, &mut rep);
+        run_sub(&a, opts, opts.tier.pick(8000, 200_000), &mut rep);
+    }
     for t in [4usize, 16] {
         let c = Histories { threads: t };
         if t == 4 {
@@ -309,6 +313,20 @@ pub fn run(opts: &Opts) -> Report {
         // sharding over 16 OS threads on top of t worker threads oversubscribes the CPU on
         // purpose (more preemption points)
         run_sub(&c, opts, opts.tier.pick(if t == 4 { 1500 } else { 400 }, if t == 4 { 30_000 } else { 8000 }), &mut rep);
+    }
+    // result of the ThreadSanitizer pass over the same concurrent sub-checks (run by the driver)
+    if let Ok(line) = std::env::var("VERIF_TSAN_RESULT") {
+        let evals = line
+            .split_whitespace()
+            .find_map(|w| w.strip_prefix("evaluations="))
+            .and_then(|v| v.parse::<u64>().ok())
+            .unwrap_or(0);
+        if evals > 0 {
+            rep.evaluations += evals;
+            rep.subs.push(serde_json::json!({"sub": "tsan_concurrent", "evaluations": evals,
+                "what": "concurrent4 + concurrent16 re-run in a ThreadSanitizer build (nightly, -Zbuild-std): no data race reported on any explored schedule"}));
+            rep.rules.push("[tsan_concurrent] the concurrent sub-checks re-run under ThreadSanitizer at a quarter of the case count; any reported data race is a violation".into());
+        }
     }
     rep
 }
